@@ -1633,6 +1633,64 @@ def _inline_decorators(tree):
             handle(st, True)
 
 
+# private methods the rules name, with the role that identifies them when a
+# maintainer has renamed them: (class, canonical name) -> predicate(source)
+_ANCHOR_ROLES = {
+    ("IndentationFitter", "_fit"): lambda t: "lmfit.minimize(" in t,
+    ("IndentationFitter", "_hash"): lambda t: "hashlib." in t,
+    ("NaniteFitModel", "_module_check"):
+        lambda t: "raise ModelIncompleteError(" in t,
+    ("NaniteFitModel", "_module_autocomplete"):
+        lambda t: "get_default_residuals_wrapper(" in t,
+    ("IndentationRater", "_rate"): lambda t: ".predict(" in t,
+    ("IndentationRater", "_pre_rate"):
+        lambda t: " == 0" in t and ".predict(" not in t
+        and "compute_features" not in t and "def " in t
+        and t.count("\n") < 14,
+    ("RateManager", "_get_samples"): lambda t: "compute_features(" in t,
+}
+
+
+def _restore_anchor_names(tree):
+    """A renamed private anchor method is given its canonical name back
+    (definition and `self.<name>` uses in this module), identified by its
+    role.  Only when the canonical name is absent and exactly one private
+    method of the class plays the role."""
+    for cls in tree.body:
+        if not isinstance(cls, ast.ClassDef):
+            continue
+        wanted = {n: pred for (c, n), pred in _ANCHOR_ROLES.items()
+                  if c == cls.name}
+        if not wanted:
+            continue
+        meths = {m.name: m for m in cls.body
+                 if isinstance(m, ast.FunctionDef)}
+        for canon, pred in wanted.items():
+            if canon in meths:
+                continue
+            cands = []
+            for name, m in meths.items():
+                if not name.startswith("_") or name.startswith("__") or \
+                        name in wanted:
+                    continue
+                try:
+                    txt = ast.unparse(m)
+                except Exception:
+                    continue
+                if pred(txt):
+                    cands.append(m)
+            if len(cands) != 1:
+                continue
+            old = cands[0].name
+            cands[0].name = canon
+            cands[0]._renamed_from = old
+            for n in ast.walk(tree):
+                if isinstance(n, ast.Attribute) and n.attr == old and \
+                        isinstance(n.value, ast.Name) and n.value.id in (
+                            "self", "cls", cls.name):
+                    n.attr = canon
+
+
 def _namedtuples(tree):
     """module-level `T = namedtuple("T", "a b c" | [..])` -> {T: fields}"""
     out = {}
@@ -1792,6 +1850,7 @@ def normalize_module(tree: ast.Module, extern=None) -> ast.Module:
                 scal[k] = v
     if scal:
         tree = _ConstInline(scal).visit(tree)
+    _restore_anchor_names(tree)
     _inline_decorators(tree)
     _inline_contextmanagers(tree)
     for _round in range(2):
